@@ -932,3 +932,212 @@ Example C14_copy_toplevel_nonvacuous :
   | None => False
   end.
 Proof. vm_compute. split; reflexivity. Qed.
+
+(* ================================================================================================== *)
+(* GAP CLOSING against the property text (clause table: header of Proofs/C14GapA.v)                     *)
+(* ================================================================================================== *)
+From BP Require Import Model.Len Model.C07Ops Model.C01Reach Model.C01Parse Model.C17Typed Model.C17Nested.
+From BP Require Proofs.C14GapA.
+Module GA := BP.Proofs.C14GapA.
+
+(* ---- (1) "never change what a message subsequently encodes to": every way of asking - bytes, len, dump (plain and
+        delimited), bool, == in both positions - returns after any reads / copies what it returned before, errors included
+        (composition with C09_two_walks_agree) ---- *)
+Theorem C14_outputs_stable : forall sc, wf_schema sc = true -> forall o o', mat_obj sc o o' = true ->
+  enc_obj sc o' = enc_obj sc o /\ len_obj sc o' = len_obj sc o /\ (forall d, dump sc o' d = dump sc o d) /\
+  obj_bool sc o' = obj_bool sc o /\
+  (forall x, obj_eq sc o' x = obj_eq sc o x /\ obj_eq sc x o' = obj_eq sc x o).
+Proof. exact GA.outputs_stable. Qed.
+Print Assumptions C14_outputs_stable.
+
+Theorem C14_outputs_stable_after_observers : forall sc, wf_schema sc = true -> forall o bs,
+  enc_obj sc (observe_all sc o bs) = enc_obj sc o /\ len_obj sc (observe_all sc o bs) = len_obj sc o /\
+  (forall d, dump sc (observe_all sc o bs) d = dump sc o d) /\
+  obj_bool sc (observe_all sc o bs) = obj_bool sc o /\
+  (forall x, obj_eq sc (observe_all sc o bs) x = obj_eq sc o x /\ obj_eq sc x (observe_all sc o bs) = obj_eq sc x o).
+Proof. exact GA.outputs_stable_observers. Qed.
+Print Assumptions C14_outputs_stable_after_observers.
+
+(* ---- (3) the flag of the message itself and its oneof selection, literally (no schema hypothesis) ---- *)
+Theorem C14_materialisation_keeps_flag_selection : forall sc o o', mat_obj sc o o' = true ->
+  osow o' = osow o /\ ocur o' = ocur o /\ (forall g, which_one_of o' g = which_one_of o g).
+Proof. exact GA.keep_flag_selection. Qed.
+Print Assumptions C14_materialisation_keeps_flag_selection.
+
+Theorem C14_observers_keep_flag_selection : forall sc o bs,
+  osow (observe_all sc o bs) = osow o /\ ocur (observe_all sc o bs) = ocur o /\
+  (forall g, which_one_of (observe_all sc o bs) g = which_one_of o g).
+Proof. exact GA.observers_keep_flag_selection. Qed.
+Print Assumptions C14_observers_keep_flag_selection.
+
+Theorem C14_any_order_keeps_flag_selection : forall sc, wf_schema sc = true -> forall l o, cops_shaped sc o l = true ->
+  osow (apply_cops sc o l) = osow o /\ ocur (apply_cops sc o l) = ocur o /\
+  (forall g, which_one_of (apply_cops sc o l) g = which_one_of o g).
+Proof. exact GA.cops_keep_flag_selection. Qed.
+Print Assumptions C14_any_order_keeps_flag_selection.
+
+(* ---- (4) the shape hypothesis of the copy theorems, derived: every value within C01's condition is shaped at every
+        depth, so copy / deepcopy are faithful for it without a shape premise ---- *)
+Theorem C14_value_ok_shaped : forall sc o, c01_value_ok sc o = true -> shaped_obj sc o = true /\ shaped_top sc o = true.
+Proof. exact GA.value_ok_shaped. Qed.
+Print Assumptions C14_value_ok_shaped.
+
+(* GA.faithful sc o oc = the conclusion of C14_copy_faithful with oc for the copy (bytes, == against everything in both
+   positions, bool, presence at every path, unknown bytes, class, flag, selection) *)
+Theorem C14_copies_faithful_value_ok : forall sc o, wf_schema sc = true -> c01_value_ok sc o = true ->
+  GA.faithful sc o (copy sc o) /\ GA.faithful sc o (deepcopy sc o) /\
+  mat_obj sc o (copy sc o) = true /\ mat_obj sc o (deepcopy sc o) = true.
+Proof. exact GA.copies_faithful_value_ok. Qed.
+Print Assumptions C14_copies_faithful_value_ok.
+
+(* ... and for EVERY object a history of public-API operations produces (constructor, from_dict on the class and on an
+   instance, assignments and reads through any path, parse of clean bytes into the object, copies, pickles, bytes / len / dump /
+   == / bool): the quantifier's "constructed, decoded from bytes, loaded from dicts".  Conditions on the operations only
+   (C01's op_value_ok_p). *)
+Theorem C14_copies_faithful_reachable : forall sc c ops o,
+  c01_schema_ok sc = true -> hist_ok op_value_ok_p sc (new sc c) ops = true -> run7 sc (new sc c) ops = Ok o ->
+  shaped_obj sc o = true /\ GA.faithful sc o (copy sc o) /\ GA.faithful sc o (deepcopy sc o).
+Proof. exact GA.copies_faithful_reachable. Qed.
+Print Assumptions C14_copies_faithful_reachable.
+
+(* ---- (4) pickle for reachable objects: pickle_pre and sow_ok discharged (C01_reachable_sow_ok_parse); the only premise on
+        the value that is left is the size of bytes(m).  o2: any state reads / copies left behind from o. ---- *)
+Theorem C14_pickle_reachable : forall sc c ops o o2,
+  c01_schema_ok sc = true -> hist_ok op_reach_ok_p sc (new sc c) ops = true -> run7 sc (new sc c) ops = Ok o ->
+  enc_small sc o = true -> mat_obj sc o o2 = true ->
+  exists o', pickle_rt sc o2 = Ok o' /\ pickle_rt sc o = Ok o' /\ o' = norm_obj sc o /\
+    (deep nan_free (PMsg o) = true -> obj_eq sc o' o2 = true /\ obj_eq sc o2 o' = true) /\
+    enc_obj sc o' = enc_obj sc o2 /\
+    ocls o' = ocls o2 /\ ounk o' = ounk o2 /\ ounk o' = [] /\ osow o' = true /\ ocur o' = ocur o2 /\
+    (forall g, which_one_of o' g = which_one_of o2 g) /\
+    presence_below sc o' [] = presence_below sc o2 [] /\ (forall i, child_flag sc o' i = child_flag sc o2 i).
+Proof. exact GA.pickle_reachable. Qed.
+Print Assumptions C14_pickle_reachable.
+
+(* ---- (4) "each": the three copies against each other.  Pickling any state reads / copies left behind returns what pickling
+        the original returns - result OR error, no side condition at all ---- *)
+Theorem C14_pickle_of_materialised_exact : forall sc, wf_schema sc = true -> forall o o2,
+  mat_obj sc o o2 = true -> pickle_rt sc o2 = pickle_rt sc o.
+Proof. exact GA.pickle_of_mat_exact. Qed.
+Print Assumptions C14_pickle_of_materialised_exact.
+
+Theorem C14_pickle_after_any_order_exact : forall sc, wf_schema sc = true -> forall l o,
+  cops_shaped sc o l = true -> pickle_rt sc (apply_cops sc o l) = pickle_rt sc o.
+Proof. exact GA.pickle_after_cops_exact. Qed.
+Print Assumptions C14_pickle_after_any_order_exact.
+
+Theorem C14_three_copies_agree : forall sc o,
+  pickle_pre sc o = true -> shaped_obj sc o = true ->
+  exists o', pickle_rt sc o = Ok o' /\ pickle_rt sc (copy sc o) = Ok o' /\ pickle_rt sc (deepcopy sc o) = Ok o' /\
+    pickle_rt sc o' = Ok o' /\
+    enc_obj sc (copy sc o) = enc_obj sc o /\ enc_obj sc (deepcopy sc o) = enc_obj sc o /\ enc_obj sc o' = enc_obj sc o /\
+    ounk (copy sc o) = ounk o /\ ounk (deepcopy sc o) = ounk o /\ ounk o' = ounk o /\
+    (forall g, which_one_of (copy sc o) g = which_one_of o g /\ which_one_of (deepcopy sc o) g = which_one_of o g /\
+               which_one_of o' g = which_one_of o g) /\
+    (forall p, presence_at sc (copy sc o) p = presence_at sc o p /\ presence_at sc (deepcopy sc o) p = presence_at sc o p).
+Proof. exact GA.three_copies_agree. Qed.
+Print Assumptions C14_three_copies_agree.
+
+(* ---- (4) WHEN the pickle round trip returns a message: exactly when bytes(m) exists and is [valid] for the class
+        (composition with C17_accept_iff; has_builtins / entries_agree are C17's schema conditions) ---- *)
+Theorem C14_pickle_accept_iff : forall sc, wf_schema sc = true -> has_builtins sc -> entries_agree sc = true -> forall o,
+  (exists o', pickle_rt sc o = Ok o') <-> (exists bs, enc_obj sc o = Ok bs /\ valid sc (ocls o) bs).
+Proof. exact GA.pickle_accept_iff. Qed.
+Print Assumptions C14_pickle_accept_iff.
+
+Theorem C14_pickle_err_iff : forall sc, wf_schema sc = true -> has_builtins sc -> entries_agree sc = true -> forall o,
+  (exists e, pickle_rt sc o = Err e) <->
+  ((exists e, enc_obj sc o = Err e) \/ (exists bs, enc_obj sc o = Ok bs /\ ~ valid sc (ocls o) bs)).
+Proof. exact GA.pickle_err_iff. Qed.
+Print Assumptions C14_pickle_err_iff.
+
+Theorem C14_pickle_pre_valid : forall sc o, has_builtins sc -> entries_agree sc = true -> pickle_pre sc o = true ->
+  exists bs, enc_obj sc o = Ok bs /\ valid sc (ocls o) bs.
+Proof. exact GA.pickle_pre_valid. Qed.
+Print Assumptions C14_pickle_pre_valid.
+
+(* ---- witnesses.  A history over ex_schema: Holder(b="y", n=4); m.inner.x = 5; read m.inner.rec.x; m.parse(n = 7);
+        m.from_dict({"oi": 2}); bytes(m) ---- *)
+Definition ex_reach_hist : list op7 :=
+  [OConstruct [(3%nat, PStr [x79]); (6%nat, PInt 4)];
+   OBase (OSet [1%nat] 0%nat (PInt 5));
+   OBase (OGet [1%nat; 1%nat] 0%nat);
+   OBase (OParse [x38; x07]);
+   OFromDictInst [(7%nat, PInt 2)];
+   OBase OBytes].
+
+Example C14_gap_reachable_nonvacuous :
+  c01_schema_ok ex_schema = true /\ has_builtins ex_schema /\ entries_agree ex_schema = true /\
+  hist_ok op_reach_ok_p ex_schema (new ex_schema 13) ex_reach_hist = true /\
+  hist_ok op_value_ok_p ex_schema (new ex_schema 13) ex_reach_hist = true /\
+  match run7 ex_schema (new ex_schema 13) ex_reach_hist with
+  | Ok o => enc_small ex_schema o = true /\ c01_value_ok ex_schema o = true /\
+            cv_eqb (cv_of_obj o) (cv_of_obj (new ex_schema 13)) = false /\
+            mat_obj ex_schema o (deepcopy ex_schema (observe_all ex_schema o ex_observers)) = true /\
+            enc_obj ex_schema o = Ok [x12; x02; x08; x05; x22; x01; x79; x38; x07; x40; x02] /\
+            len_obj ex_schema o = Ok 11%Z /\
+            which_one_of o 0 = Some 3%nat
+  | Err _ => False
+  end.
+Proof.
+  split; [vm_compute; reflexivity|]. split; [exists (skipn (length builtin_classes) (classes ex_schema)); reflexivity|].
+  vm_compute. repeat split; reflexivity.
+Qed.
+
+(* the hypotheses of C14_three_copies_agree / C14_pickle_pre_valid on ex_obj (which carries unknown bytes) *)
+Example C14_gap_three_copies_nonvacuous :
+  pickle_pre ex_schema ex_obj = true /\ shaped_obj ex_schema ex_obj = true /\
+  cops_shaped ex_schema ex_obj ex_cops = true /\
+  match pickle_rt ex_schema (apply_cops ex_schema ex_obj ex_cops), pickle_rt ex_schema ex_obj with
+  | Ok a, Ok b => cv_eqb (cv_of_obj a) (cv_of_obj b) = true /\ cv_eqb (cv_of_obj a) (cv_of_obj (apply_cops ex_schema ex_obj ex_cops)) = false
+  | _, _ => False
+  end.
+Proof. vm_compute. repeat split; reflexivity. Qed.
+
+(* both failing cases of C14_pickle_err_iff are inhabited: Holder(b=1) (an int in a string field: bytes() raises, so does the
+   pickle, before and after observers), and Inner(x=2**70) (bytes() returns an 11-byte varint, which no reader accepts) *)
+Example C14_gap_pickle_err_nonvacuous :
+  let bad := Obj 13 [PPlaceholder; PPlaceholder; PPlaceholder; PInt 1; PPlaceholder; PPlaceholder; PPlaceholder; PNone] true [] [Some 3%nat] in
+  let bad2 := Obj 11 [PInt (2 ^ 70); PPlaceholder; PNone] true [] [] in
+  pickle_rt ex_schema bad = Err EAttribute /\ enc_obj ex_schema bad = Err EAttribute /\
+  pickle_rt ex_schema (observe_all ex_schema bad ex_observers) = Err EAttribute /\
+  pickle_rt ex_schema bad2 = Err ETooLong /\
+  match enc_obj ex_schema bad2 with Ok bs => Zlength bs = 12%Z | Err _ => False end.
+Proof. vm_compute. repeat split; reflexivity. Qed.
+
+(* ---- (7) "in any order", with pickle round trips INTERLEAVED among observers, copy and deepcopy, any number of each
+        (Model/C14GapDef.v: cop2 / run_cops2 / cops2_shaped, the shape condition at the points where a copy is taken).
+        From a state within pickle_pre the whole sequence runs without raising; its final state is a materialisation of the
+        start or of THE unpickled object o' (there is only one: every pickle in the sequence returns o'), has the bytes, the
+        unknown bytes, the class and the oneof selection of the start, and pickles to o' again. ---- *)
+From BP Require Import Model.C14GapDef.
+From BP Require Proofs.C14GapB.
+Module GB := BP.Proofs.C14GapB.
+
+Theorem C14_any_order_with_pickles : forall sc o l,
+  pickle_pre sc o = true -> cops2_shaped sc o l = true ->
+  exists o' oF, pickle_rt sc o = Ok o' /\ run_cops2 sc o l = Ok oF /\
+    (mat_obj sc o oF = true \/ mat_obj sc o' oF = true) /\
+    enc_obj sc oF = enc_obj sc o /\ ounk oF = ounk o /\ ocls oF = ocls o /\
+    (forall g, which_one_of oF g = which_one_of o g) /\
+    pickle_rt sc oF = Ok o'.
+Proof. exact GB.any_order_with_pickles. Qed.
+Print Assumptions C14_any_order_with_pickles.
+
+Theorem C14_pickles_in_sequence_agree : forall sc o l1 l2,
+  pickle_pre sc o = true -> cops2_shaped sc o (l1 ++ C2Pickle :: l2) = true ->
+  exists o', pickle_rt sc o = Ok o' /\ run_cops2 sc o (l1 ++ [C2Pickle]) = Ok o'.
+Proof. exact GB.pickles_in_sequence_agree. Qed.
+Print Assumptions C14_pickles_in_sequence_agree.
+
+Definition ex_cops2 : list cop2 :=
+  [C2 (CObserve BBytes); C2Pickle; C2 CDeepcopy; C2 (CObserve (BGet [1%nat; 1%nat] 0%nat)); C2Pickle; C2 CCopy;
+   C2 (CObserve (BToDict 5 false))].
+Example C14_gap_interleaved_nonvacuous :
+  pickle_pre ex_schema ex_obj = true /\ cops2_shaped ex_schema ex_obj ex_cops2 = true /\
+  match run_cops2 ex_schema ex_obj ex_cops2, pickle_rt ex_schema ex_obj with
+  | Ok oF, Ok o' => cv_eqb (cv_of_obj oF) (cv_of_obj ex_obj) = false /\ cv_eqb (cv_of_obj oF) (cv_of_obj o') = false /\
+                    mat_obj ex_schema o' oF = true
+  | _, _ => False
+  end.
+Proof. vm_compute. repeat split; reflexivity. Qed.
